@@ -4,6 +4,7 @@ import gv
 PROP = "C17"
 REQ_PROPS = ["GV.Props.Props_C17"]
 REQ_RUN = ["GV.Par.Run"]
+BINS = ["c17"]
 
 TRUSTED = [
     "Coq 8.16.1 kernel (coqc; vm_compute used to run the model; no native_compute)",
